@@ -534,6 +534,64 @@ class Plugin:
             raise AssertionError(f"renderer/parse disagreement: {got!r} vs {want!r}")
         return text
 
+    def impl_search(self, rng, tier):
+        """Implementation-only probe of "the callback lists exactly the variables this NOTIFY replaced" over a history the
+        model's inputs cannot express: the application installs its on_event callback only after some NOTIFYs have
+        already been applied (the initial event usually beats it).  Every callback made afterwards may name only variables
+        that occur in the NOTIFY being handled.  Never stands in for a theorem."""
+        from multidict import CIMultiDict, CIMultiDictProxy
+        if self._loop is None:
+            self._loop = asyncio.new_event_loop()
+            logging.getLogger("async_upnp_client").setLevel(logging.CRITICAL)
+        n = 600 if tier == "thorough" else 80
+        found, done = [], 0
+        for _ in range(n):
+            case = self._case(rng)
+            if len(case["events"]) < 2 or len({s for s, _ in case["routes"]}) != len(case["routes"]):
+                continue
+            quiet = dict(case, services=[dict(sv, callback=False) for sv in case["services"]])
+            try:
+                env = _Env(quiet, self._loop)
+            except Exception:  # noqa: BLE001
+                continue
+            cut = rng.randint(1, len(case["events"]) - 1)
+            bad = None
+            try:
+                for j, ev in enumerate(case["events"]):
+                    if j == cut:
+                        for i, sv in enumerate(env.services):
+                            sv.on_event = env._cb(i)                      # noqa: SLF001
+                    for lg in env.logs:
+                        lg.clear()
+                    if "bad" in ev["body"]:
+                        continue
+                    text = self._body_text(ev["body"])
+                    headers = ({k: v for k, v in ev["headers"]} if ev["kind"] == "plain"
+                               else CIMultiDictProxy(CIMultiDict([(k, v) for k, v in ev["headers"]])))
+                    try:
+                        self._loop.run_until_complete(env.eh.handle_notify(headers, text))
+                    except Exception:  # noqa: BLE001
+                        continue
+                    if j < cut:
+                        continue
+                    named = {t.split("}")[-1] for ch in ev["body"]["children"] if ch[0] == "prop" for t, _ in ch[1]}
+                    for lg in env.logs:
+                        for call in lg:
+                            extra = [nm for nm, _ in call if nm not in named]
+                            if extra:
+                                bad = [j, extra]
+                    if bad:
+                        break
+            except AssertionError:
+                continue
+            done += 1
+            if bad:
+                found.append(("callback_once_exact", dict(quiet, callback_installed_before_event=cut),
+                              {"event": bad[0], "names_not_in_this_notify": bad[1]},
+                              "impl-search: a callback installed after earlier NOTIFYs lists variables the NOTIFY being handled does not carry"))
+                break
+        return found, done
+
     def run_impl(self, case):
         from multidict import CIMultiDict, CIMultiDictProxy
 
